@@ -15,6 +15,10 @@
 (*              ... realised by the harness as: DUP2 DUP2 <store> <store>)     *)
 (*   swapnext   two adjacent instructions exchanged                            *)
 (*   index      DUP/SWAP depth changed by +1 / -1 (param 1, 2)                 *)
+(*   permute    a permutation of the input stack put in front of the block     *)
+(*              (param = index into the harness' list PERMS: operands and      *)
+(*              operand pairs of the first instructions exchanged, so that     *)
+(*              two stores or a store and a load trade places)                 *)
 (***************************************************************************)
 EXTENDS Naturals, Sequences, Json, IOUtils, TLC
 
@@ -26,6 +30,7 @@ Classes == << <<"DIV", "SDIV">>, <<"MOD", "SMOD">>, <<"LT", "SLT">>, <<"GT", "SG
 Binary == {"ADD", "MUL", "SUB", "DIV", "SDIV", "MOD", "SMOD", "EXP", "SIGNEXTEND", "LT", "GT", "SLT", "SGT", "EQ",
            "AND", "OR", "XOR", "BYTE", "SHL", "SHR", "SAR", "MSTORE", "MSTORE8", "SSTORE", "KECCAK256"}
 StoreOps == {"MSTORE", "MSTORE8", "SSTORE"}
+NPerms == 6        \* length of the harness' list PERMS
 
 VARIABLES b, pos, kind, par
 vars == <<b, pos, kind, par>>
@@ -43,10 +48,11 @@ Valid(bi, p, k, x) ==
     [] k = "dropstore" -> ins.op \in StoreOps /\ x = 0
     [] k = "dupstore"  -> ins.op \in StoreOps /\ x = 0
     [] k = "swapnext"  -> p < Len(blk) /\ x = 0 /\ blk[p] # blk[p + 1]
+    [] k = "permute"   -> p = 1 /\ x \in 1..NPerms
     [] k = "index"     -> ins.op \in {"DUP", "SWAP"} /\ ((x = 1 /\ ins.k < 16) \/ (x = 2 /\ ins.k > 1))
     [] OTHER -> FALSE
 
-Kinds == {"swapargs", "subst", "const", "dropstore", "dupstore", "swapnext", "index"}
+Kinds == {"swapargs", "subst", "const", "dropstore", "dupstore", "swapnext", "index", "permute"}
 Params == 0..(Len(Classes) * 10 + 2)
 
 Init == b \in 1..Len(Bases) /\ pos = 0 /\ kind = "none" /\ par = 0
